@@ -796,6 +796,7 @@ package router
 //@   sendsite invocation : [caller-disclosed-only-if-allowed] "caller" in m.(*wamp.Invocation).Details ==> reg.disclose || (optTrue(msg.Options, "disclose_me") && d.allowDisclose && hasFeature(callee, "callee", "caller_identification"))
 //@   sendsite invocation : [disallowed-disclose-me-not-delivered] old(isNewCall(d, caller, msg)) && !reg.disclose && optTrue(msg.Options, "disclose_me") ==> d.allowDisclose
 //@   callsite WithTimeout : [router-timer-only-when-timeout-not-forwarded] callerTimeout > 0 && timeout == callerTimeout && !(hasFeature(callee, "callee", "call_timeout") && reg.forwardTimeout)
+//@   callsite WithTimeout : [timer-never-earlier-than-the-timeout-asked] (timeout <= 9223372036854 ==> arg1 == timeout * 1000000) && (timeout > 9223372036854 ==> arg1 == 9223372036854775807)
 //@   sendsite invocation : [timeout-forwarded-only-if-handled] "timeout" in m.(*wamp.Invocation).Details ==> old(isNewCall(d, caller, msg)) && hasFeature(callee, "callee", "call_timeout") && reg.forwardTimeout
 
 //@ pred dealerIndexExcept(d *dealer, x *wamp.Session) = (forall c *wamp.Session, i wamp.ID :: c != x && c in d.calleeRegIDSet && i in d.calleeRegIDSet[c] ==> i in d.registrations && calleeOf(d.registrations[i], c)) && (forall i wamp.ID, k mathint :: i in d.registrations && 0 <= k && k < len(d.registrations[i].callees) && d.registrations[i].callees[k] != x ==> calleeOf(d.registrations[i], d.registrations[i].callees[k]) && d.registrations[i].callees[k] in d.calleeRegIDSet && i in d.calleeRegIDSet[d.registrations[i].callees[k]]) && dealerIndexAlloc(d)
